@@ -251,7 +251,8 @@ func runRepr(c ReprCase, r *runlog.R) error {
 	kinds := 0
 	for k := range used {
 		switch k {
-		case "narrow int", "float32", "named primitive", "pointer to primitive", "nil *int":
+		case "narrow int", "float32", "named primitive", "pointer to primitive", "nil *int", "nil map", "nil slice":
+		case "map[string]interface{}", "[]interface{}":
 		default:
 			kinds++
 		}
@@ -266,12 +267,12 @@ func runRepr(c ReprCase, r *runlog.R) error {
 
 var subRepr = runlog.Register(&runlog.Sub[ReprCase]{
 	Name: "repr-roundtrip",
-	Rule: "random tree (hostile strings, nil, empty containers, keys incl. dotted/blank/empty/integer literals) built in 3-4 mixed Go representations (as drawn, generic, 1-2 alternative choice vectors: generic/interface-keyed/named/typed maps, slices, arrays, StructOf structs with tags and typed fields, 1-3 pointer levels, *Config, narrow and named primitive kinds, typed nils), under no option / PathSep / EnableNumKeys; for each: canon(Dump(NewFrom(repr))) == canon(T), NewFrom(Dump) has the same generic view and the same hook fingerprint (nil = absent = empty; byte-identical when T has no nil/empty/index keys). Non-trivial: at least 2 different container representations in the case. Distinct: hash of the case.",
+	Rule: "random tree (hostile strings, nil, empty containers, keys incl. dotted/blank/empty/integer literals) built in 3-4 mixed Go representations (as drawn, generic, 1-2 alternative choice vectors: generic/interface-keyed/named/typed maps, slices, arrays, StructOf structs with tags and typed fields, 1-3 pointer levels, *Config, narrow and named primitive kinds, typed nils), under no option / PathSep / EnableNumKeys; for each: canon(Dump(NewFrom(repr))) == canon(T), NewFrom(Dump) has the same generic view and the same hook fingerprint (nil = absent = empty; byte-identical when T has no nil/empty/index keys). Non-trivial: at least 2 different container representations other than the generic map[string]interface{} / []interface{} occur in the case. Distinct: hash of the case.",
 	Gen:  genRepr,
 	Run:  runRepr,
 })
 
-func TestReprRoundTrip(t *testing.T) { subRepr.Check(t, 60000, 3000000) }
+func TestReprRoundTrip(t *testing.T) { subRepr.Check(t, 60000, 2000000) }
 
 // ---------------------------------------------------------------------------
 // (b), (c) dotted spellings
@@ -586,19 +587,19 @@ func runFlat(c FlatCase, r *runlog.R) error {
 
 var subFlat = runlog.Register(&runlog.Sub[FlatCase]{
 	Name: "flatten",
-	Rule: "random tree T over keys {a,b,c,d,0,1}; every leaf path is cut into dotted groups independently (so any subset of the object edges, and of the list edges as index segments, is written dotted, next to nested spellings of sibling parts), subtrees kept whole keep a mixed Go representation (struct tags, interface-keyed and typed maps, pointers, *Config); the spelled input F is the case, with its key insertion orders; run: every insertion order of every object (all n! up to 4 keys, at most 48 inputs) under PathSep(\".\") must give the tree computed from F by an order-free model (split keys, union, integer segments are list indices), the same normalised hook fingerprint as NewFrom(nested tree), and be stable when fed back. Non-trivial: some container is assembled from >=2 spellings (a dotted key through it plus a value, two dotted keys, or two values). Distinct: hash of F.",
+	Rule: "random tree T over keys {a,b,c,d,0,1}; every leaf path is cut into dotted groups independently (so any subset of the object edges, and of the list edges as index segments, is written dotted, next to nested spellings of sibling parts), subtrees kept whole keep a mixed Go representation (struct tags, interface-keyed and typed maps, pointers, *Config); the spelled input F is the case, with its key insertion orders; run: F as stated plus every insertion order of the keys of every object in which two keys start with the same segment (all n! up to 4 keys, rotations and reversal above, at most 48 inputs; 8 repetitions each in replay mode) under PathSep(\".\") must give the tree computed from F by an order-free model (split keys, union, integer segments are list indices), the same normalised hook fingerprint as NewFrom(nested tree), and be stable when fed back. Non-trivial: some container is assembled from >=2 spellings (a dotted key through it plus a value, two dotted keys, or two values). Distinct: hash of F.",
 	Gen:  func(t *rapid.T) FlatCase { return genFlat(t, false) },
 	Run:  runFlat,
 })
 
 var subDup = runlog.Register(&runlog.Sub[FlatCase]{
 	Name: "duplicates",
-	Rule: "as flatten, plus one planted second definition of a path of T in a different spelling: primitive/primitive on a leaf, container over a primitive leaf, primitive over a container, container/container overlapping in a leaf, container/container with fresh (disjoint) leaves; the model decides from F alone: a primitive defined twice or a primitive and a container with a primitive below it at one path => NewFrom must fail with Reason()==ErrDuplicateKey (ErrExpectedObject also accepted iff a dotted key runs through a primitive given by another key), in every insertion order, each tried 4 times; disjoint => must merge; primitive vs nil/empty container only => either. Non-trivial: a duplicate, or a container assembled from >=2 spellings. Distinct: hash of F.",
+	Rule: "as flatten, plus one planted second definition of a path of T in a different spelling: primitive/primitive on a leaf, container over a primitive leaf, primitive over a container, container/container overlapping in a leaf, container/container with fresh (disjoint) leaves; the model decides from F alone: a primitive defined twice or a primitive and a container with a primitive below it at one path => NewFrom must fail with Reason()==ErrDuplicateKey (ErrExpectedObject also accepted iff a dotted key runs through a primitive given by another key), in every insertion order, each tried twice (8 times in replay mode) because a defective implementation depends on Go map iteration order; a nil second definition defines nothing; disjoint => must merge; primitive vs nil/empty container only => either. Non-trivial: a duplicate, or a container assembled from >=2 spellings. Distinct: hash of F.",
 	Gen:  func(t *rapid.T) FlatCase { return genFlat(t, true) },
 	Run:  runFlat,
 })
 
-func TestFlatten(t *testing.T)    { subFlat.Check(t, 24000, 1000000) }
-func TestDuplicates(t *testing.T) { subDup.Check(t, 20000, 600000) }
+func TestFlatten(t *testing.T)    { subFlat.Check(t, 24000, 800000) }
+func TestDuplicates(t *testing.T) { subDup.Check(t, 20000, 500000) }
 
 func TestReplay(t *testing.T) { runlog.ReplayMain(t) }
